@@ -51,3 +51,40 @@ func init() {
 		c.Explain = ex + " Also runs C36's commit-verification rules (preconditions, guarded-tally, verdict) on ValidatorSet.VerifyCommit, to which ValidateBlock delegates the '+2/3 signed' clause."
 	})
 }
+
+// shareRules runs another property's check in a scratch context and imports
+// only the obligations of the named rules (and anything undecided) into c.
+func shareRules(c *engine.Ctx, fn func(*engine.Ctx), rules ...string) {
+	tmp := engine.NewCtx(c.Prop, c.Tier)
+	tmp.Quiet = true
+	fn(tmp)
+	want := map[string]bool{}
+	for _, r := range rules {
+		want[r] = true
+	}
+	n := 0
+	for _, o := range tmp.Obs {
+		if want[o.Rule] || o.Undec {
+			c.Obs = append(c.Obs, o)
+			n++
+		}
+	}
+	c.Packages = append(c.Packages, tmp.Packages...)
+	c.Floor("shared "+rules[0], n, 1)
+}
+
+// C31 (no two conflicting commits) rests on the +2/3 tallies of VoteSet being
+// sound: a block's tally counts each validator's power at most once, only for
+// admitted (signature-verified, right height/round/type) votes, and "+2/3" is a
+// strict comparison. Those clauses are decided by C35's vote-set rules. An
+// independently seeded C31 change (duplicate detection removed from
+// VoteSet.getVote + blockVotes.addVerifiedVote, so a re-delivered equivocating
+// vote is counted again and one validator fakes a +2/3) is caught by exactly
+// these rules, so they run as part of C31 too. C35's commit-only-majority rule
+// (MakeCommit) is not imported: it concerns the commit's content, not the tally.
+func init() {
+	extend("C31", func(c *engine.Ctx) {
+		shareRules(c, c35, "sum-distinct", "vote-admission", "quorum-form")
+		c.Explain += " Also imports C35's VoteSet tally rules (sum-distinct, vote-admission, quorum-form): the consensus state machine's +2/3 tests are only as sound as those tallies."
+	})
+}
